@@ -201,6 +201,26 @@ func genRect(t *rapid.T) Spec {
 			s.Family = "edge-bulge"
 			s.Hint = uint64(id)
 		}
+	case 12, 13:
+		// a meridian edge of the rectangle runs along a cell edge: on the four
+		// equatorial faces the u = const sides of a cell are meridians, and all finer
+		// cells along that side share the line. 0..2 ulps off, zero width or one side.
+		id := gen.CellIDAt(t, "rect.ec", rapid.SampledFrom([]int{0, 1, 3, 4}).Draw(t, "rect.ef"), rapid.IntRange(2, 20).Draw(t, "rect.el"))
+		cell := s2.CellFromCellID(id)
+		vlat, vlng := latLng(cell.Vertex(rapid.IntRange(0, 3).Draw(t, "rect.ek")))
+		vlng = gen.Ulps(vlng, rapid.IntRange(-2, 2).Draw(t, "rect.eu"))
+		s.Family = "meridian-on-cell-edge"
+		lng0, lng1 = vlng, vlng
+		switch rapid.IntRange(0, 2).Draw(t, "rect.es") {
+		case 1:
+			lng1 = vlng + w
+			s.Family = "west-edge-on-cell-edge"
+		case 2:
+			lng0 = vlng - w
+			s.Family = "east-edge-on-cell-edge"
+		}
+		lat0, lat1 = vlat-h*rapid.Float64Range(0, 1).Draw(t, "rect.e0"), vlat+h*rapid.Float64Range(0, 1).Draw(t, "rect.e1")
+		s.Hint = uint64(id)
 	case 9:
 		s.Family = "wide" // wider than 180 degrees
 		w = rapid.Float64Range(math.Pi, 2*math.Pi-1e-3).Draw(t, "rect.wide")
